@@ -8,10 +8,15 @@ or python-pptx), an A1 reference parser and the bijective base-26 column model.
     parse_ref("Sheet1!$A$2:$B$5") -> Ref(sheet, c1, r1, c2, r2, inverted); .cells() row-major; .rows/.cols
     col_name(28) == "AB";  col_number("AB") == 28          (1-based, bijective base 26)
 
+    serial(date, date1904)              # Excel day number in the 1900 system (phantom 1900-02-29) or the 1904 system
+    read_chart(chartSpace root)         # the chart side of the references: plots in document order, series by c:order,
+                                        # per series c:tx/c:cat/c:val/c:xVal/c:yVal/c:bubbleSize as {ref, f, count, pts, levels}
+
 Shared strings are the concatenation of si/t and si/r/t (phonetic runs rPh ignored); `_xHHHH_`
 escapes of ST_Xstring are decoded, as a spreadsheet application does on load."""
 from __future__ import annotations
 
+import datetime
 import io
 import posixpath
 import re
@@ -261,3 +266,98 @@ class Workbook:
 
     def get(self, name, index=0):
         return self.cells(index).get(name, EMPTY)
+
+
+# ------------------------------------------------------------------ date systems
+def serial(d, date1904=False):
+    """Excel day number of a date: 1900-01-01 = 1 and the non-existent 1900-02-29 = 60; or days since 1904-01-01"""
+    o = datetime.date(d.year, d.month, d.day).toordinal()
+    if date1904:
+        return float(o - datetime.date(1904, 1, 1).toordinal())
+    n = o - datetime.date(1899, 12, 31).toordinal()
+    return float(n + 1 if n >= 60 else n)
+
+
+# ------------------------------------------------------------------ the chart side: references and caches of a chart part
+C = "http://schemas.openxmlformats.org/drawingml/2006/chart"
+DATA = ("tx", "cat", "val", "xVal", "yVal", "bubbleSize")
+
+
+def c(local):
+    return "{%s}%s" % (C, local)
+
+
+def local(el):
+    return el.tag.split("}")[-1] if isinstance(el.tag, str) else ""
+
+
+def read_cache(cache):
+    out = {"count": None, "pts": {}, "levels": None, "fmt": None, "dup": False}
+    if cache is None:
+        return out
+    pc = cache.find(c("ptCount"))
+    out["count"] = int(pc.get("val")) if pc is not None and pc.get("val") is not None else None
+    fc = cache.find(c("formatCode"))
+    out["fmt"] = None if fc is None else (fc.text or "")
+
+    def pts(parent):
+        d = {}
+        for pt in parent.findall(c("pt")):
+            i, v = int(pt.get("idx")), pt.find(c("v"))
+            out["dup"] = out["dup"] or i in d
+            d[i] = "" if v is None or v.text is None else v.text
+        return d
+
+    lvls = cache.findall(c("lvl"))
+    if lvls:
+        out["levels"] = [pts(l) for l in lvls]
+        out["pts"] = out["levels"][0]
+    else:
+        out["pts"] = pts(cache)
+    return out
+
+
+def read_source(el):
+    """c:tx / c:cat / c:val / c:xVal / c:yVal / c:bubbleSize -> {ref, f, count, pts {idx: text}, levels, fmt} or None"""
+    if el is None:
+        return None
+    for ch in el:
+        ln = local(ch)
+        if ln in ("strRef", "numRef", "multiLvlStrRef"):
+            f = ch.find(c("f"))
+            cache = next((x for x in ch if local(x).endswith("Cache")), None)
+            return dict(read_cache(cache), ref=ln, f=None if f is None else (f.text or ""))
+        if ln in ("strLit", "numLit"):
+            return dict(read_cache(ch), ref=ln, f=None)
+        if ln in ("v", "rich"):
+            return {"ref": ln, "f": None, "count": 1, "pts": {0: "".join(ch.itertext())}, "levels": None, "fmt": None, "dup": False}
+    return {"ref": None, "f": None, "count": None, "pts": {}, "levels": None, "fmt": None, "dup": False}
+
+
+def plot_elements(root):
+    pa = root.find("%s/%s" % (c("chart"), c("plotArea")))
+    return [] if pa is None else [e for e in pa if local(e).endswith("Chart")]
+
+
+def ordered_sers(plot):
+    def order(s):
+        o = s.find(c("order"))
+        return int(o.get("val")) if o is not None and (o.get("val") or "").lstrip("-").isdigit() else 1 << 40
+
+    return sorted(plot.findall(c("ser")), key=order)
+
+
+def read_chart(root):
+    d = root.find(c("date1904"))
+    ext = root.find(c("externalData"))
+    out = {"date1904": d is not None and d.get("val", "1").lower() in ("1", "true"), "plots": [], "ext_rid": None if ext is None else ext.get("{%s}id" % NS_R)}
+    for pl in plot_elements(root):
+        sers = []
+        for s in ordered_sers(pl):
+            one = {k: read_source(s.find(c(k))) for k in DATA}
+            for k in ("idx", "order"):
+                e = s.find(c(k))
+                one[k] = None if e is None else e.get("val")
+            sers.append(one)
+        out["plots"].append({"tag": local(pl), "sers": sers})
+    return out
